@@ -481,6 +481,7 @@ func canonical(r *rand.Rand) built {
 	g := &hu.Gen{R: rand.New(rand.NewSource(7)), MaxAlign: 1, Depth: 1}
 	gid := func(b byte) []byte { return rep(b, 16) }
 	nested := g.FV(500, false)
+	extDepex := append(append([]byte{0x02}, gid(0x45)...), 0x08) // PUSH guid, END
 	fv := &hu.FV{ZV: make([]byte, 16), Attrs: 0x0004FEFF, Rev: 2, Blocks: []hu.Block{{Count: 1, Size: 0x2000}},
 		ExtHdr: &hu.ExtHdr{FVName: gid(0xE1), Data: []byte{1, 2, 3, 4}}}
 	mk := func(gb byte, typ uint8, secs ...*hu.Sec) *hu.File {
@@ -494,6 +495,18 @@ func canonical(r *rand.Rand) built {
 			&hu.Sec{Kind: "sg", GUID: gid(0x77), DataOffset: 24, Attrs: 2, Body: rep(0x33, 16)}),
 		mk(0x13, 0x0b, &hu.Sec{Kind: "sf", FV: nested}),
 		{Kind: "fl", GUID: gid(0x14), Type: 0x01, State: 0xF8, Ext: true, Attrs: 1, CkF: 0xAA, Body: rep(0x21, 40)},
+		// every parsed section kind once more behind the *extended* common header (Size = FFFFFF, 32-bit
+		// ExtendedSize): each has a header-size guard of its own in NewSection, and the boundary mutants of
+		// ExtendedSize (…, 4, 5, 7, 8, 9, …) are what tells a guard against the 4-byte header from one against
+		// this section's header (seeded defect c05-1)
+		mk(0x15, 0x07,
+			&hu.Sec{Kind: "sl", Type: 0x15, Ext: true, Body: hu.UCS2([]rune("ExtName"))},
+			&hu.Sec{Kind: "sl", Type: 0x14, Ext: true, Body: append(le(2, 7), hu.UCS2([]rune("2.0"))...)},
+			&hu.Sec{Kind: "sl", Type: 0x13, Ext: true, Body: extDepex},
+			&hu.Sec{Kind: "sl", Type: 0x1b, Ext: true, Body: extDepex},
+			&hu.Sec{Kind: "sl", Type: 0x1c, Ext: true, Body: extDepex},
+			&hu.Sec{Kind: "sl", Type: 0x17, Ext: true, Body: g.FV(200, false).Ser()},
+			&hu.Sec{Kind: "sg", Ext: true, GUID: gid(0x78), DataOffset: 28, Attrs: 2, Body: rep(0x34, 16)}),
 	}
 	fv.Files[3].CkH = hu.HeaderChecksum(fv.Files[3], 32+40)
 	fv.Free = 0x2000 - fv.FilesEnd()
